@@ -163,6 +163,7 @@ T["T4"] = (doc(
     + cont("L2A", ["E4"], "L1A", CMP("B4", "7", "&lt;="))                                   # criteria on user data
     + cont("L2B", ["H8"], "L1A", CMP("B4", "7", "&gt;="))                                   # overlaps with L2A at B4 == 7: ambiguous
     + cont("L2C", ["E4", "H8"], "L1B", "<xtce:BooleanExpression>" + COND("C8", "==", v="200", lcal="false") + "</xtce:BooleanExpression>")
+    + cont("L2E", ["G2"], "L1B", CMP("C8", "77"), abstract="true")                          # abstract and WITHOUT any inheritor: a packet that ends up here is not defined
     + cont("L2D", ["J4"], "L1B", CMP("C8", "199", "&gt;"))                                  # overlaps with L2C at C8 == 200: ambiguity under a CONCRETE parent
     + cont("L3A", ["C8"], "L2A", CMP("E4", "15", "!="), abstract="true")                    # abstract with one conditional child: dead end possible
     + cont("L4A", ["D6"], "L3A", CMP("C8", "0"))
@@ -275,7 +276,8 @@ CODECS = ["US-ASCII", "ISO-8859-1", "Windows-1252", "UTF-8", "UTF-16", "UTF-16LE
 DELIMS = ["whole", "term", "lead8", "lead16"]
 # "ref-raw-of-cal": the RAW value of a parameter that also has a calibrator (raw 0 <-> calibrated 16), through an adjuster
 # "ref-raw-bits": the length in BITS is the raw value itself (0..15: buffers shorter than a byte and not whole bytes)
-SOURCES = ["fixed", "fixed-odd", "lookup", "ref-raw-adj", "ref-cal", "ref-raw-of-cal", "ref-raw-bits"]
+# "ref-cal-frac": the CALIBRATED value of the reference is fractional (raw/2) and the adjustment (slope 8) makes the size integral for even raws
+SOURCES = ["fixed", "fixed-odd", "lookup", "ref-raw-adj", "ref-cal", "ref-raw-of-cal", "ref-raw-bits", "ref-cal-frac"]
 
 
 def _term_hex(codec, order):
@@ -299,6 +301,8 @@ def _size_source(src, fixed_bits):
         return DYN("LENF", "true"), None
     if src == "ref-raw-of-cal":
         return DYN("LENF", "false", 8, 0), None
+    if src == "ref-cal-frac":
+        return DYN("LENF", "true", 8, 0), None
     if src == "ref-raw-bits":
         return DYN("LENF", "false", 1, 0), None
     raise KeyError(src)
@@ -320,7 +324,7 @@ def string_template(codec, delim, src, off, order="mostSignificantByteFirst", la
     else:
         size = f"<xtce:Variable>{dyn}{extra}</xtce:Variable>"
     o = order if codec in ("UTF-16", "UTF-32") else None
-    lcal = DEFCAL(POLY((8, 1))) if src == "ref-cal" else DEFCAL(POLY((16, 0), (8, 1))) if src == "ref-raw-of-cal" else ""
+    lcal = DEFCAL(POLY((8, 1))) if src == "ref-cal" else DEFCAL(POLY((16, 0), (8, 1))) if src == "ref-raw-of-cal" else DEFCAL(POLY((0.5, 1))) if src == "ref-cal-frac" else ""
     types = (I("PAD_T", max(off, 1)) + I("LENF_T", 4, "unsigned", lcal) + I("U4_T", 4)
              + STR("S_T", size, enc=codec, order=o))
     ents = (["PAD"] if off else []) + ["LENF", "S"] + ([] if last else ["TAIL"])       # last: the string is the LAST field (it may end in the packet's last byte)
@@ -342,9 +346,11 @@ def binary_template(src, off):
         size = DYN("LENF", "false", 4, 0)
     elif src == "ref-raw-bits":
         size = DYN("LENF", "false", 1, 0)
+    elif src == "ref-cal-frac":
+        size = DYN("LENF", "true", 6, 1)          # calibrated raw/2, size 3*raw + 1 bits
     else:
         size = DYN("LENF", "true")
-    lcal = DEFCAL(POLY((8, 1))) if src == "ref-cal" else DEFCAL(POLY((16, 0), (8, 1))) if src == "ref-raw-of-cal" else ""
+    lcal = DEFCAL(POLY((8, 1))) if src == "ref-cal" else DEFCAL(POLY((16, 0), (8, 1))) if src == "ref-raw-of-cal" else DEFCAL(POLY((0.5, 1))) if src == "ref-cal-frac" else ""
     types = (I("PAD_T", max(off, 1)) + I("LENF_T", 4, "unsigned", lcal) + I("U4_T", 4) + BIN("B_T", size))
     ents = (["PAD"] if off else []) + ["LENF", "B", "TAIL"]
     xml = doc(types=types, params=[("PAD", "PAD_T"), ("LENF", "LENF_T"), ("B", "B_T"), ("TAIL", "U4_T")], root_entries=ents, children="",
